@@ -16,7 +16,7 @@ import (
 )
 
 // C29: weighted LRU.  Case: <impl> <maxWeight> <maxSize> ; op ; op ; ...
-//   impl: S = simplewlru, W = wlru; suffix "big" = weights near 2^64 (model-vs-impl only: the
+//   impl: S = simplewlru, W = wlru; suffix "n" = built by New (no eviction callback); suffix "big" = weights near 2^64 (model-vs-impl only: the
 //   specification assumes the uint weight sum does not wrap)
 //   ops: A k v w | G k | P k | C k | R k | RO | GO | K | L | WT | Z mw ms | PU | CA k v w | PA k v w
 // Observation: NEW ok|ERR, then per op "; <res> <ev> <st>" (see coq/extract/C29/driver.ml).
@@ -122,13 +122,27 @@ func c29RunRaw(in []string) []string {
 	onEvict := func(k, v interface{}) { log = append(log, c29kv{k.(uint64), v.(uint64)}) }
 	var c c29cache
 	var w *wlru.Cache
+	// suffix "n": built by New (no eviction callback, onEvict == nil); the callback log is then
+	// unobservable ("e~") but results, Len, Weight and Keys must be exactly the same
+	nocb := strings.HasSuffix(hdr[0], "n")
 	if strings.HasPrefix(hdr[0], "W") {
-		w, err = wlru.NewWithEvict(uint(mw), ms, onEvict)
+		if nocb {
+			w, err = wlru.New(uint(mw), ms)
+		} else {
+			w, err = wlru.NewWithEvict(uint(mw), ms, onEvict)
+		}
 		c = w
 	} else {
 		var s *simplewlru.Cache
-		s, err = simplewlru.NewWithEvict(uint(mw), ms, onEvict)
+		if nocb {
+			s, err = simplewlru.New(uint(mw), ms)
+		} else {
+			s, err = simplewlru.NewWithEvict(uint(mw), ms, onEvict)
+		}
 		c = s
+	}
+	if nocb {
+		vu.Stat("no_callback_case")
 	}
 	if err != nil {
 		vu.Stat("new_err")
@@ -234,7 +248,11 @@ func c29RunRaw(in []string) []string {
 		if len(log) > 0 {
 			vu.Stat("op_with_callback")
 		}
-		obs = append(obs, ";", res, "e"+c29join(ev),
+		evTok := "e" + c29join(ev)
+		if nocb {
+			evTok = "e~"
+		}
+		obs = append(obs, ";", res, evTok,
 			fmt.Sprintf("s%d:%d:%s", c.Len(), uint64(c.Weight()), c29join(ks)))
 	}
 	return obs
@@ -345,8 +363,15 @@ func init() {
 			if tier == "thorough" {
 				depth = 3
 			}
+			emit("Sn", "3", "-1")
+			emit("Sn", "5", "3", ";", "A", "1", "10", "2", ";", "A", "2", "20", "1", ";", "PU", ";", "WT", ";", "A", "3", "30", "4", ";", "K", ";", "Z", "2", "3", ";", "L")
+			emit("Wn", "5", "3", ";", "A", "1", "10", "2", ";", "PU", ";", "A", "2", "20", "5", ";", "A", "3", "30", "0", ";", "K", ";", "WT")
 			for _, b := range [][2]int{{0, 0}, {0, 2}, {2, 0}, {1, 1}, {2, 2}, {3, 2}, {2, 3}, {100, 1}, {1, 100}} {
 				c29Enum("S", b[0], b[1], depth, emit)
+				c29Enum("Sn", b[0], b[1], 2, emit)
+				if tier == "thorough" || b[0] == 3 {
+					c29Enum("Wn", b[0], b[1], 2, emit)
+				}
 				if tier == "thorough" {
 					c29Enum("W", b[0], b[1], 2, emit)
 				}
@@ -376,7 +401,11 @@ func init() {
 					nkeys = 7
 				}
 				nops := 1 + r.Intn(60)
-				in := []string{impl, strconv.Itoa(mw), strconv.Itoa(ms)}
+				hdrImpl := impl
+				if r.Intn(4) == 0 {
+					hdrImpl = impl + "n" // constructor without eviction callback
+				}
+				in := []string{hdrImpl, strconv.Itoa(mw), strconv.Itoa(ms)}
 				in = append(in, c29GenOps(r, impl, nkeys, 5, nops, mw, roomy)...)
 				emit(in...)
 			}
